@@ -654,5 +654,33 @@ inductive SimReach (FK : Q → V → K) (integ : Q → V → K → A → Q × V)
   | step {s : Sim Q V K} (a : A) : SimReach FK integ frameSkip s →
       SimReach FK integ frameSkip (simTransition FK integ frameSkip s a)
 
+/-! ### contact-force cache
+
+  `cfrc_ext` (and `cacc`, `cfrc_int`) are *not* part of the forward pass: MuJoCo computes them only on
+  request (`mj_rnePostConstraint` / `mjx.rne_postconstraint`).  Gymnasium's `do_simulation` requests
+  them after the frame-skipped steps; a reset (`mj_resetData` + `set_state` + `mj_forward`) leaves them
+  at zero.  `SimF` extends the machine by that cache: `frc : Option F`, `none` = the zero placeholder
+  of a fresh `Data`, `some f` = forces computed by `RNE` from the state they describe. -/
+
+structure SimF (Q V K F : Type) where
+  sim : Sim Q V K
+  frc : Option F
+
+/-- reset: kinematics by the forward pass, forces zero (both lerax and Gymnasium) -/
+def simFInitial {F : Type} (FK : Q → V → K) (q : Q) (v : V) : SimF Q V K F := ⟨simInitial FK q v, none⟩
+
+/-- `transition` (repaired) = Gymnasium's `do_simulation`: step `frame_skip` times, then compute the
+    force-related quantities of the state reached -/
+def simFTransition {F : Type} (FK : Q → V → K) (integ : Q → V → K → A → Q × V) (RNE : Q → V → F)
+    (n : Nat) (s : SimF Q V K F) (a : A) : SimF Q V K F :=
+  let s' := simTransition FK integ n s.sim a
+  ⟨s', some (RNE s'.qpos s'.qvel)⟩
+
+/-- pre-repair `transition`: the post-constraint pass is never requested, the cache keeps whatever it
+    held (the zero placeholder from `make_data` onwards) -/
+def LegacySimFTransition {F : Type} (FK : Q → V → K) (integ : Q → V → K → A → Q × V)
+    (n : Nat) (s : SimF Q V K F) (a : A) : SimF Q V K F :=
+  ⟨simTransition FK integ n s.sim a, s.frc⟩
+
 end
 end Lerax.Mujoco
